@@ -150,6 +150,7 @@ type Case struct {
 	Wrap            []string      // command prefix (e.g. strace ...)
 	Mode            string        // subject mode, default "run"
 	Args            []string      // extra args for other modes
+	SlowStderr      bool          // the subject's stderr is a pipe with a slow reader
 	KeepWd          bool          // do not (re)create sources; re-run in place
 	RunNo           int           // run number inside the same root (separate meta files)
 	WdRel           string        // working directory relative to Root (default "wd")
@@ -272,6 +273,39 @@ func (c *Case) Run() *Result {
 	defer outF.Close()
 	cmd.Stdout = outF
 	cmd.Stderr = outF
+	var slowDone chan struct{}
+	var slowPW *os.File
+	if c.SlowStderr {
+		// the subject's stderr is a pipe with a slow reader (a terminal, a pager, ssh): 128 kB every 10 ms
+		pr, pw, err := os.Pipe()
+		if err == nil {
+			cmd.Stderr = pw
+			slowDone = make(chan struct{})
+			go func() {
+				defer close(slowDone)
+				buf := make([]byte, 128<<10)
+				for {
+					n, err := pr.Read(buf)
+					if n > 0 {
+						outF.Write(buf[:n])
+						time.Sleep(10 * time.Millisecond)
+					}
+					if err != nil {
+						pr.Close()
+						return
+					}
+				}
+			}()
+			slowPW = pw
+			defer func() {
+				pw.Close()
+				select {
+				case <-slowDone:
+				case <-time.After(5 * time.Second):
+				}
+			}()
+		}
+	}
 	cmd.SysProcAttr = &syscall.SysProcAttr{Setsid: true}
 	env := []string{"PATH=" + os.Getenv("PATH"), "HOME=" + os.Getenv("HOME"), "LANG=C",
 		"VERIF_TRACE=" + tracePath, "VERIF_EVLOG=" + evPath, "VERIF_RVDIR=" + rvDir, "TMPDIR=" + meta}
@@ -302,6 +336,9 @@ func (c *Case) Run() *Result {
 		res.Exit = -1
 		res.Hang = "inconclusive:start:" + err.Error()
 		return res
+	}
+	if slowPW != nil {
+		slowPW.Close() // the reader sees end-of-file when the subject is gone
 	}
 	pgid := cmd.Process.Pid
 	done := make(chan error, 1)
